@@ -222,11 +222,26 @@ def d26_region(s, i, infl):
     return True
 
 
+def d28_region(s, i):
+    """a resume request was accepted while a with-items task was `pausing`: the task is not told
+    and stays `pausing`"""
+    td = tasks_def(s)
+    for j in range(i + 1):
+        o, r = s["ops"][j], s["replies"][j]
+        if o["op"] == "req" and o["status"] in ("running", "resuming") and not raised(r):
+            for t in (r.get("state") or {}).get("sequence", []):
+                if t.get("status") == "pausing" and td.get(t["id"], {}).get("with") is not None:
+                    return True
+    return False
+
+
 def region_of(s, i):
     if rearrival_region(s, i):
         return "D2"
     if d20_region(s, i):
         return "D20"
+    if d28_region(s, i):
+        return "D28"
     return None
 
 
